@@ -554,6 +554,13 @@ func runGate(ctx *Ctx) {
 				low = append(low, fmt.Sprintf("%s%s(%d of at least %d)", what, c.name, ctx.Res.Distribution[what+c.name], n))
 			}
 		}
+		// a header version that could not be patched into the document (or that the decoder did not see) makes
+		// the lenient-decode oracle vacuous for that case (the document keeps its 1.4 header): never silently
+		for _, what := range []string{".unpatchable", ".patch-missed"} {
+			if k := ctx.Res.Distribution["gate.text."+c.name+what]; k > 0 {
+				low = append(low, fmt.Sprintf("gate.text.%s%s(%d, must be 0)", c.name, what, k))
+			}
+		}
 	}
 	sort.Strings(low)
 	if len(low) > 0 {
